@@ -387,5 +387,147 @@ def verifyCircuit4 (chk : Checks) (perm : List K → List K) (pc : PermCfg) (cap
             let n := min o.length root.length
             (if o.take n = root.take n then .ok else .reject, st3)
 
+/-! ### Prover-chosen private payloads
+
+`CircuitRunner::set_private_data(op_id, data)` takes any op id of the circuit and any limb vector: the
+private payload of every permutation row is the prover's, not only the sibling digests that
+`set_*_mmcs_private_data` derives from an honest opening proof (which zero-fills the two unused chunks of an
+arity-4 bridge row and sets nothing on injection rows). `pays` lists `(j, limbs)`: the payload of path row
+`j`, rows counted in emission order from the first row of the Merkle path (= the order of the native
+verifier's `compress` calls). A row without an entry keeps the honest payload. -/
+
+/-- Payload of path row `j`: the prover's entry when there is one, `dflt` otherwise. -/
+def payAt {K : Type} (pays : List (Nat × List K)) (j : Nat) (dflt : Option (List K)) : Option (List K) :=
+  match pays.find? (fun p => p.1 == j) with
+  | some p => some p.2
+  | none => dflt
+
+/-- `pathLoop` with prover-chosen payloads; `j` = index of the next path row; also returns the index
+after the loop (the tail row's). -/
+def pathLoopP (perm : List K → List K) (pc : PermCfg) (pays : List (Nat × List K)) :
+    Bool → Nat → List (List K) → List K → List (Option (List K)) → ExecSt K → List K →
+    Option (ExecSt K × List K × Nat)
+  | _, j, _, [], _, st, out => some (st, out, j)
+  | first, j, digs, dir :: dirs, sibs, st, _ =>
+    let rowDigest := digs.headD []
+    let hasInj := !first && !rowDigest.isEmpty
+    let st1 : Option (ExecSt K) :=
+      if hasInj then
+        (execRow perm pc st { injectRow pc rowDigest with sibling := payAt pays j none }).map (·.1)
+      else some st
+    let j1 := if hasInj then j + 1 else j
+    match st1 with
+    | none => none
+    | some st1 =>
+      let inputs : List (Option K) := if first then (rowDigest.take pc.rate).map some else []
+      let row : Row K :=
+        { newStart := first, merkle := true, bit := dir, bit2 := 0, inputs := inputs
+          sibling := payAt pays j1 (sibs.headD none) }
+      match execRow perm pc st1 row with
+      | none => none
+      | some (st2, out) => pathLoopP perm pc pays false (j1 + 1) digs.tail dirs sibs.tail st2 out
+
+/-- `mmcsVerify` with prover-chosen payloads. -/
+def mmcsVerifyP (perm : List K → List K) (pc : PermCfg) (pays : List (Nat × List K)) (digs : List (List K))
+    (dirs : List K) (sibs : List (List K)) (root : List K) (st : ExecSt K) : CVerdict × ExecSt K :=
+  if dirs.isEmpty then
+    let leaf := digs.headD []
+    if leaf.length ≠ root.length then (.buildErr, st)
+    else (if leaf = root then .ok else .reject, st)
+  else
+    let tail := digs.getD dirs.length []
+    match pathLoopP perm pc pays true 0 digs dirs (sibs.map some ++ List.replicate dirs.length none) st [] with
+    | none => (.reject, st)
+    | some (st1, out, j) =>
+      let fin : Option (ExecSt K × List K) :=
+        if tail.isEmpty then some (st1, out)
+        else execRow perm pc st1 { injectRow pc tail with sibling := payAt pays j none }
+      match fin with
+      | none => (.reject, st1)
+      | some (st2, out) =>
+        let o := out.take pc.rate
+        if o.length ≠ root.length then (.buildErr, st2)
+        else (if o = root then .ok else .reject, st2)
+
+/-- `verifyCircuit2` with prover-chosen payloads. -/
+def verifyCircuit2P (chk : Checks) (perm : List K → List K) (pc : PermCfg) (pays : List (Nat × List K))
+    (cap : List (List K)) (dims : List Dim) (bits : List K) (streams : List (List K)) (sibs : List (List K)) :
+    CVerdict × ExecSt K :=
+  let st0 : ExecSt K := ExecSt.init
+  if dims.length ≠ streams.length then (.buildErr, st0) else
+  if chk.widths && !widthsOk dims streams then (.buildErr, st0) else
+  if chk.heights && !heightsOk dims then (.buildErr, st0) else
+  if cap.isEmpty then (.panic, st0) else
+  match (if cap.length = 1 then some 0 else log2Strict? cap.length) with
+  | none => (.panic, st0)
+  | some capHeight =>
+    let L := bits.length
+    if L < capHeight then (if chk.capBits then .buildErr else .panic, st0) else
+    let pathDepth := L - capHeight
+    let root := selectCapEntry cap (bits.drop pathDepth)
+    match levelDigests perm pc L streams (List.range (pathDepth + 1)) (tallestFirst dims) st0 with
+    | none => (.reject, st0)
+    | some (st1, digs) => mmcsVerifyP perm pc pays digs (bits.take pathDepth) sibs root st1
+
+/-- `emit4` with prover-chosen payloads; `j` = index of the next path row. -/
+def emit4P (perm : List K → List K) (pc : PermCfg) (pays : List (Nat × List K)) :
+    List Step4 → List K → Nat → Nat → List (List K) → List (List K) → ExecSt K → List K →
+    Option (ExecSt K × List K)
+  | [], _, _, _, _, _, st, out => some (st, out)
+  | s :: ss, bits, used, j, injDigs, sibs, st, _ =>
+    let b1 := bits.getD used 0
+    let b2 := if s.step = 4 then bits.getD (used + 1) 0 else 0
+    let nsib := s.step - 1
+    let priv := (sibs.take nsib).flatten ++ List.replicate ((3 - nsib) * pc.capw) 0
+    match execRow perm pc st (compRow4 pc b1 b2 s.step none (payAt pays j (some priv))) with
+    | none => none
+    | some (st1, out1) =>
+      let used' := used + (if s.step = 4 then 2 else 1)
+      if s.inj.isEmpty then emit4P perm pc pays ss bits used' (j + 1) injDigs (sibs.drop nsib) st1 out1
+      else
+        match execRow perm pc st1
+            (compRow4 pc 0 0 s.step (some (injDigs.headD [])) (payAt pays (j + 1) none)) with
+        | none => none
+        | some (st2, out2) =>
+          emit4P perm pc pays ss bits used' (j + 2) injDigs.tail (sibs.drop nsib) st2 out2
+
+/-- `verifyCircuit4` with prover-chosen payloads. -/
+def verifyCircuit4P (chk : Checks) (perm : List K → List K) (pc : PermCfg) (pays : List (Nat × List K))
+    (cap : List (List K)) (dims : List Dim) (bits : List K) (streams : List (List K)) (sibs : List (List K)) :
+    CVerdict × ExecSt K :=
+  let st0 : ExecSt K := ExecSt.init
+  if dims.length ≠ streams.length then (.buildErr, st0) else
+  if chk.widths && !widthsOk dims streams then (.buildErr, st0) else
+  if !pc.arity4 then (.buildErr, st0) else
+  if cap.isEmpty then (.panic, st0) else
+  let sorted := tallestFirst dims
+  if !heightsCompatible (sorted.map (·.2.height)) then (.buildErr, st0) else
+  if chk.heights && !heightsOk dims then (.buildErr, st0) else
+  let maxHeight := (sorted.headD (0, ⟨0, 0⟩)).2.height
+  if maxHeight = 0 then (.buildErr, st0) else
+  match (if cap.length = 1 then some 0 else log2Strict? cap.length) with
+  | none => (.panic, st0)
+  | some capLog =>
+    let leafNpt := npt maxHeight
+    let (leaf, rem) := sorted.span (fun x => npt x.2.height == leafNpt)
+    match schedule4Loop cap.length (2 * (paddedLen maxHeight 4 + dims.length) + 2) (paddedLen maxHeight 4) rem with
+    | none => (.panic, st0)
+    | some sched =>
+      let pathBits := (sched.map (fun s => if s.step = 4 then 2 else 1)).sum
+      let capBits := if capLog = 0 then [] else (List.range capLog).map fun i => bits.getD (pathBits + i) 0
+      let root := selectCapEntry cap capBits
+      match injDigests4 perm pc streams sched st0 with
+      | none => (.reject, st0)
+      | some (st1, injDigs) =>
+        match hashStream perm pc true st1 (leaf.map (fun x => streams.getD x.1 [])).flatten with
+        | none => (.reject, st1)
+        | some (st2, leafDig) =>
+          match emit4P perm pc pays sched bits 0 0 injDigs sibs st2 (leafDig.take pc.capw) with
+          | none => (.reject, st2)
+          | some (st3, out) =>
+            let o := out.take pc.capw
+            let n := min o.length root.length
+            (if o.take n = root.take n then .ok else .reject, st3)
+
 end
 end P3R.Mmcs
